@@ -19,7 +19,13 @@ def main():
         return 2
     try:
         build.ensure_fresh()
-        return fn(a.tier, a.seed)
+        rc = fn(a.tier, a.seed)
+        if rc == 2 and props.VIOLATIONS_REPORTED[0] > 0:
+            # a violation that was reproduced natively stands, whatever else stayed inconclusive in the same run (other
+            # models that did not reproduce, tasks that ran out of budget): the VIOLATION lines above are the verdict
+            print(f'note: {props.VIOLATIONS_REPORTED[0]} reproduced violation(s) reported; inconclusive parts of this run are listed above as ENGINE lines')
+            return 1
+        return rc
     except build.BuildError as e:
         print('ENGINE: build failed:\n' + str(e)[-4000:])
         return 2
